@@ -196,6 +196,17 @@ def pack_case(case):
     bad = r1cs.evaluate(ns.rec.snapshot())
     if bad:
         return "constraint #%d emitted by pack/unpack is violated by the recorded witness" % bad[0]
+    if case.get("random_seed") is not None:
+        # packer.random() promises a value of the schema: it must pack and come back unchanged
+        import random
+        random.seed(case["random_seed"])
+        rv = pkr.random()
+        try:
+            back = plainify(ns, pkr.unpack(pkr.pack(rv), 0))
+        except Exception as e:
+            return "random() produced %r, which pack/unpack rejects with %s: %s" % (rv, type(e).__name__, e)
+        if back != rv:
+            return "random() produced %r, unpack(pack(.)) gives %r" % (rv, back)
     if case.get("broken") is not None:
         mode = case.get("broken_mode", "normal")
         try:
@@ -228,6 +239,8 @@ def pack_shard(seed, n_examples):
         case = {"part": "pack", "schema": s, "value": draw_value(draw, s), "secret": draw(st.sampled_from([True, False, "mixed"])),
                 "mask": [draw(st.booleans()) for _ in range(6)],
                 "offset": draw(st.integers(0, 3)), "b": b, "p": draw(st.sampled_from(["bn128", "bls12-381", "curve25519"]))}
+        if draw(st.integers(0, 3)) == 0:
+            case["random_seed"] = draw(st.integers(0, 1 << 30))
         if not case["secret"] and draw(st.booleans()):
             case["broken"] = break_value(draw, s, case["value"])
             case["broken_mode"] = draw(st.sampled_from(["normal", "ignore", "false-guard"]))
